@@ -334,11 +334,25 @@ Section Solver.
         (map (fun st => fc_rescale s sc2 (p_cond (st_post st))) sts) rv_at_t1
     end.
 
+  (* strategy.interpolate_fwd_at_t1: the state to resume / finalize from when a
+     step ended at t1 precisely.  Smoothers reset the backward model to the
+     identity (fixed-point always did; fixed-interval since the F3 repair). *)
+  Definition interp_at_t1_step_from (s : shape) (st : strat) (p : post) : post :=
+    match st with
+    | Filter => p
+    | _ => mkPost (p_marg p) (f_identity s)
+    end.
+  Definition state_at_t1 (cf : config) (st : sstate) : sstate :=
+    mkSt (st_t st) (st_u st)
+         (interp_at_t1_step_from (cf_shape cf) (cf_strat cf) (st_post st))
+         (st_out2 st) (st_run2 st) (st_ndata st) (st_nsteps st) (st_fx st).
+
+  (* solve_fixed_grid: solution1 = interpolate_fwd_at_t1(last state).step_from *)
   Definition solve_fixed_grid (cf : config) (t0 : F) (u0 : fnormal) (dts : list F)
     : option (list fnormal * list sstate) :=
     let st0 := solver_init cf t0 u0 in
     match fixed_grid_states cf st0 dts with
     | None => None
-    | Some sts => Some (finalize cf st0 sts (last sts st0), sts)
+    | Some sts => Some (finalize cf st0 sts (state_at_t1 cf (last sts st0)), sts)
     end.
 End Solver.
